@@ -28,6 +28,17 @@ fn run_program<F: Fl + std::fmt::Display>(case: &Value) -> Vec<Value> {
                 let xs: Vec<F> = act["xs"].as_array().unwrap().iter().map(|v| f(v)).collect();
                 for _ in 0..act["rep"].as_u64().unwrap() { for x in &xs { regs[r] += *x; } }
             }
+            // folds of `rep` freshly filled partial registers (each the sum of xs) into register r:
+            // lfold: acc += part (the accumulator is the left operand)
+            // rfold: part += acc; acc = part (the large accumulated register is the RIGHT operand)
+            "lfold" | "rfold" => {
+                let xs: Vec<F> = act["xs"].as_array().unwrap().iter().map(|v| f(v)).collect();
+                for _ in 0..act["rep"].as_u64().unwrap() {
+                    let mut part = KahanSum::<F>::default();
+                    for x in &xs { part += *x; }
+                    if a == "lfold" { regs[r] += part; } else { part += regs[r]; regs[r] = part; }
+                }
+            }
             "merge" => { let o = regs[q]; regs[r] += o; }            // AddAssign<Self>
             "merge_by_plus" => regs[t] = regs[r] + regs[q],         // Add<Self>
             other => panic!("kahan action {}", other),
